@@ -18,6 +18,9 @@ type built struct {
 	raw  map[string][]byte
 	pkgs map[string]*dec.Package
 	errs map[string]error
+	// shared: all formats were built from one parsed configuration, in this order
+	shared bool
+	order  []string
 }
 
 type caseCfg struct {
@@ -59,8 +62,10 @@ func forCases(run *ev.Run, cc caseCfg, fn func(b *built)) {
 			cc.tweak(i, c)
 		}
 		b := &built{c: c, yaml: c.Spec.YAML(), raw: map[string][]byte{}, pkgs: map[string]*dec.Package{}, errs: map[string]error{}}
-		for _, f := range cc.formats {
-			res := buildYAML(b.yaml, f)
+		order, shared, build := buildPlan(i, b.yaml, c.Spec, cc.formats)
+		b.shared, b.order = shared, order
+		for _, f := range order {
+			res := build(f)
 			if res.Panic != "" {
 				run.Violate(cc.prop+"/"+f+"/panic", map[string]any{"case": i, "panic": ev.Short(res.Panic, 800)})
 				continue
@@ -70,7 +75,7 @@ func forCases(run *ev.Run, cc caseCfg, fn func(b *built)) {
 				if cc.buildErrOK != nil && cc.buildErrOK(c, f, res.Err) {
 					continue
 				}
-				run.Violate(cc.prop+"/"+f+"/build-error", map[string]any{"case": i, "error": res.Err.Error()})
+				run.Violate(cc.prop+"/"+f+"/build-error", map[string]any{"case": i, "error": res.Err.Error(), "one_parsed_config": b.shared, "build_order": b.order})
 				continue
 			}
 			b.raw[f] = res.Bytes
@@ -139,4 +144,41 @@ func rebuild(run *ev.Run, prop string, b *built, fmts []string, useCLI bool) *bu
 		nb.pkgs[f] = dec.Decode(f, res.Bytes, useCLI)
 	}
 	return nb
+}
+
+// buildPlan decides how the formats of case i are built. Even cases: a fresh
+// parse per format (what the command line tool does). Odd cases: ONE parsed
+// configuration, settings obtained per format from it (what a library caller
+// such as goreleaser does), in an order that varies with the case and that puts
+// formats with an override block first for half of them - a format must get its
+// own effective settings whatever was obtained or built from the configuration
+// before. build may be called again for a format (a rebuild): in shared mode it
+// obtains the settings anew from the same parsed configuration.
+func buildPlan(i int, y string, spec *gen.Spec, fmts []string) (order []string, shared bool, build func(f string) buildResult) {
+	order = fmts
+	if i%2 == 1 {
+		if cfg, err := parseYAML(y, nil); err == nil {
+			k := (i / 2) % len(fmts)
+			order = append(append([]string{}, fmts[k:]...), fmts[:k]...)
+			if (i/2)%2 == 0 {
+				var first, rest []string
+				for _, f := range order {
+					if spec.Overrides[f] != nil {
+						first = append(first, f)
+					} else {
+						rest = append(rest, f)
+					}
+				}
+				order = append(first, rest...)
+			}
+			return order, true, func(f string) buildResult {
+				info, err := infoFor(&cfg, f)
+				if err != nil {
+					return buildResult{Err: fmt.Errorf("get: %w", err)}
+				}
+				return packageInfo(f, info)
+			}
+		}
+	}
+	return order, false, func(f string) buildResult { return buildYAML(y, f) }
 }
